@@ -1,4 +1,4 @@
-use std::collections::{HashMap, HashSet};
+use std::collections::{BTreeMap, HashMap, HashSet};
 use std::error::Error;
 use std::hash::Hash;
 use std::path::Path;
@@ -88,7 +88,8 @@ where
     /// end_key: &K - the end key, exclusive
     /// Returns: Vec<(K, V)> - the list of key-value pairs
     pub fn get_range(&self, start_key: &K, end_key: &K) -> Result<Vec<(K, V)>, Box<dyn Error>> {
-        let mut kv_pairs = HashMap::new();
+        // Ordered by encoded key, so that the result is returned in key order
+        let mut kv_pairs: BTreeMap<Vec<u8>, (K, V)> = BTreeMap::new();
         let start_key_bytes = start_key.encode_vec();
         let end_key_bytes = end_key.encode_vec();
 
@@ -96,13 +97,13 @@ where
             &start_key_bytes,
             rocksdb::Direction::Forward,
         )) {
-            let (key, value) = kv_pair?;
-            if *key >= *end_key_bytes {
+            let (key_bytes, value) = kv_pair?;
+            if *key_bytes >= *end_key_bytes {
                 break;
             }
-            let key = K::decode_vec(&key.to_vec())?;
+            let key = K::decode_vec(&key_bytes.to_vec())?;
             let value = V::decode_vec(&value.to_vec())?;
-            kv_pairs.insert(key, value);
+            kv_pairs.insert(key_bytes.to_vec(), (key, value));
         }
 
         for key in self.cache.keys() {
@@ -116,14 +117,14 @@ where
             }
             if let Some(cache) = self.cache.get(key) {
                 if let Some(value) = cache.latest() {
-                    kv_pairs.insert(key.clone(), value.clone());
+                    kv_pairs.insert(key_bytes, (key.clone(), value.clone()));
                 } else {
-                    kv_pairs.remove(key);
+                    kv_pairs.remove(&key_bytes);
                 }
             }
         }
 
-        Ok(kv_pairs.into_iter().collect())
+        Ok(kv_pairs.into_values().collect())
     }
 
     /// Returns all keys and values in the database
